@@ -292,7 +292,18 @@ def judgeC02 (op : POp) (out : String) : Expect :=
         else .pred (a.startsWith "err" && b.startsWith "err") "an exception frame is never a response"
       else
       match Spec.unframe f d with
-      | none => .noPanic
+      | none =>
+        -- a TCP frame that is longer than its own fields say (bytes behind the announced end): the payload handed in is
+        -- longer than the byte count field, so it is rejected like every other length disagreement
+        let fcb := d.getD 7 0
+        let fcOk := match fcOfEntry e with
+          | some efc => fcb == efc
+          | none => true
+        if f == .tcp && d.length ≥ 10 && d.getD 2 1 == 0 && d.getD 3 1 == 0 && fcOk && Spec.hasByteCount fcb &&
+           (d.getD 4 0).toNat * 256 + (d.getD 5 0).toNat + 6 < d.length &&
+           (d.getD 8 0).toNat + 9 < d.length then
+          .pred (a.startsWith "err" && b.startsWith "err") "a frame that is longer than its byte count field says must be rejected"
+        else .noPanic
       | some (tid, unit, pdu) =>
         let fc := pdu.headD 0
         let fcOk := match fcOfEntry e with
